@@ -44,6 +44,8 @@ type lexLine struct {
 	P []string        `json:"p"`
 	N []string        `json:"n"`
 	M bool            `json:"m"`
+	LM string         `json:"lm"` // full Match specification, Linux flavour: "true" | "false" | "ERR"
+	WM string         `json:"wm"` // ... Windows flavour
 }
 
 // LexFinding is one disagreement.
@@ -214,9 +216,11 @@ func LexReplay(in io.Reader, out io.Writer) (lines, evals int, err error) {
 				return fmt.Sprint(m)
 			}
 			evals += 2
-			report("spec", "linux", "Match", p+"|"+n, fmt.Sprint(l.M), ms(filepath.Match(p, n)))
-			report("impl", "linux", "Match", p+"|"+n, fmt.Sprint(l.M), guard("linux", "Match", p, func() string { return ms(lin.Match(p, n)) }))
-			report("impl", "windows", "Match", p+"|"+n, ms(winref.Match(p, n)), guard("windows", "Match", p, func() string { return ms(win.Match(p, n)) }))
+			// the reference libraries validate the specification's tables first, then avfs is compared with the tables
+			report("spec", "linux", "Match", p+"|"+n, l.LM, ms(filepath.Match(p, n)))
+			report("spec", "windows", "Match", p+"|"+n, l.WM, ms(winref.Match(p, n)))
+			report("impl", "linux", "Match", p+"|"+n, l.LM, guard("linux", "Match", p, func() string { return ms(lin.Match(p, n)) }))
+			report("impl", "windows", "Match", p+"|"+n, l.WM, guard("windows", "Match", p, func() string { return ms(win.Match(p, n)) }))
 		}
 	}
 
